@@ -106,7 +106,8 @@ def run(ctx):
             # (1) twice in this process, global RNG perturbed differently before each fit
             runs["in_process_a"] = c03_worker.fit_spec(dict(spec, np_seed=1))
             # (2) after an unrelated fit (history), global RNG in yet another state
-            other = dict(family="daily", profile=spec.get("profile", "current") if spec["family"] == "daily" else "legacy",
+            # the unrelated fit uses ANOTHER settings profile (anything derived or cached for it must not reach this one)
+            other = dict(family="daily", profile={"current": "legacy", "legacy": "current"}.get(spec.get("profile"), "current"),
                          meter_seed=spec["meter_seed"] + 17, kind="outliers" if spec.get("kind") == "outliers" else "heating")
             c03_worker.fit_spec(dict(other, np_seed=5))
             runs["in_process_after_other_fit"] = c03_worker.fit_spec(dict(spec, np_seed=2))
